@@ -32,7 +32,7 @@ def required_classes(tier):
     out = []
     for cv in CURVES:
         out += ["%s:ref-vs-opt" % cv, "%s:split-product" % cv, "%s:verifier-shape" % cv, "%s:finalexp" % cv]
-    out += ["same-operands-both-flags", "bls12_381:exp_by_p", "opt:rescaled", "product:identity-factor", "fq12:zero", "fq12:sparse", "fq12:subfield", "fq12:random", "fq12:miller-output"]
+    out += ["opt:sparse-rescaled", "same-operands-both-flags", "bls12_381:exp_by_p", "opt:rescaled", "product:identity-factor", "fq12:zero", "fq12:sparse", "fq12:subfield", "fq12:random", "fq12:miller-output"]
     return out
 
 
@@ -85,7 +85,13 @@ def run(rec):
 
     def Lo(Pt, deg, rescale=True):
         sc = None
-        if rescale and Pt is not None and rng.random() < 0.6:
+        u_ = rng.random()
+        if rescale and Pt is not None and u_ < 0.25:
+            # a rescaling that makes a coefficient of a coordinate (or of its twisted image) vanish
+            scs = CG.sparse_scales(S.F1 if deg == 1 else S.F2, Pt, getattr(S, "shift", None))
+            sc = scs[rng.randrange(len(scs))]
+            rec.case("opt:sparse-rescaled", None, nontrivial=False)
+        elif rescale and Pt is not None and u_ < 0.7:
             sc = CG.rand_scale(S.F1 if deg == 1 else S.F2, rng)
             rec.case("opt:rescaled", None, nontrivial=False)
         return CG.to_lib(optk, Pt, deg, rng, scale=sc)
@@ -108,6 +114,26 @@ def run(rec):
                 chk("B-c12.ref-vs-opt", False, "ref-vs-opt", "a pairing raised on subgroup points: ref %r / opt %r" % (v1 if s1 != "ok" else None, v2 if s2 != "ok" else None), a=a, b=b)
                 continue
             chk("B-c12.ref-vs-opt", tup(v1, S.p) == tup(v2, S.p), "ref-vs-opt", "optimized pairing != reference pairing", a=a, b=b)
+            # every sparse rescaling of Q and an operand sharing raw X, Y with the previous P (other Z) must give the same / the reference value
+            for sc_ in CG.sparse_scales(S.F2, Q, getattr(S, "shift", None))[: (6 if quick else 30)]:
+                rec.case("opt:sparse-rescaled", None, nontrivial=False)
+                s3, v3 = call(po.pairing, CG.to_lib(optk, Q, 2, rng, scale=sc_), Lo(Pt, 1))
+                chk("B-c12.ref-vs-opt", s3 == "ok" and tup(v3, S.p) == tup(v1, S.p), "ref-vs-opt", "optimized pairing with Q rescaled by %r != reference pairing" % (sc_,), a=a, b=b)
+            if j == 0:
+                sp_ = CG.rand_scale(S.F1, rng)
+                Xr, Yr = S.F1.mul(Pt[0], sp_)[0], S.F1.mul(Pt[1], sp_)[0]
+                FQ1 = co.FQ
+                q_obj = Lo(Q, 2)
+                call(po.pairing, q_obj, (FQ1(Xr), FQ1(Yr), FQ1(sp_[0])))
+                for z in CG.same_xy_other_z(S.E1, Xr, Yr, rng):
+                    aff = ((Xr * pow(z, -1, S.p) % S.p,), (Yr * pow(z, -1, S.p) % S.p,)) if z else None
+                    if not z or z == sp_[0] or not S.E1.on_curve(aff) or S.E1.mul(aff, S.r) is not None:
+                        continue
+                    rec.case("related-operands", None, nontrivial=False)
+                    s4, v4 = call(po.pairing, q_obj, (FQ1(Xr), FQ1(Yr), FQ1(z)))
+                    s5, v5 = call(pr.pairing, CG.to_lib(refk, Q, 2), CG.to_lib(refk, aff, 1))
+                    chk("B-c12.ref-vs-opt", s4 == "ok" and s5 == "ok" and tup(v4, S.p) == tup(v5, S.p), "ref-vs-opt",
+                        "optimized pairing != reference pairing on an operand that shares raw X, Y with the previous operand", a=a, b=b)
     # ---------------------------------------------------------------- (b) split final exponentiation
     miller_vals = []
     if role == 2 or role == 3:
